@@ -512,6 +512,8 @@ def b_list(eng, st, args, kwargs, node):
     if isinstance(k, KDict):
         ks = eng.dict_keyseq(st, v)
         return b_list(eng, st, [ks], kwargs, node)
+    if isinstance(k, KSet):
+        return b_list(eng, st, [eng.set_keyseq(st, v)], kwargs, node)       # duplicate-free enumeration, order unspecified
     if k is KVal:
         l = eng.coerce(st, v, KList(KVal), node)
         out = eng.copy_list(st, l)
@@ -521,7 +523,7 @@ def b_list(eng, st, args, kwargs, node):
 
 
 def seq_to_list(eng, st, v, node):
-    _, n, getter, ek = v.const
+    _, n, getter, ek = v.const[:4]
     out = eng.new_list(st, KList(ek), n)
     _, e = eng.lnames(out.kind)
     arr = st.fresh("seql", z3.ArraySort(z3.IntSort(), sort_of(ek)))
@@ -580,6 +582,19 @@ def b_set(eng, st, args, kwargs, node):
         st.heap[h] = z3.Store(eng.harr(st, h), s.term, eng.harr(st, h)[v.term])
         st.heap[n] = z3.Store(eng.harr(st, n), s.term, eng.harr(st, n)[v.term])
         return s
+    if k is KConst and isinstance(v.const, tuple) and v.const and v.const[0] == "seq":
+        if len(v.const) > 4 and v.const[4][0] == "range":
+            # set(range(lo, hi)): membership is the interval itself
+            _, lo, hi = v.const[4]
+            s = SV(KSet(KInt), eng.alloc(st))
+            h, n = eng.snames(s.kind)
+            mem = st.fresh("rangeset", z3.ArraySort(z3.IntSort(), z3.BoolSort()))
+            x = z3.Int("rs_x")
+            eng.assume(st, qforall([x], mem[x] == z3.And(lo <= x, x < hi), patterns=[mem[x], idx_query(st, x)]))
+            st.heap[h] = z3.Store(eng.harr(st, h), s.term, mem)
+            st.heap[n] = z3.Store(eng.harr(st, n), s.term, v.const[1])
+            return s
+        return b_set(eng, st, [seq_to_list(eng, st, v, node)], kwargs, node)
     raise Unsupported("set() of %s" % k)
 
 
@@ -832,7 +847,7 @@ def b_range(eng, st, args, kwargs, node):
     step_s = z3.simplify(step)
     if z3.is_int_value(step_s) and step_s.as_long() == 1:
         n = z3.If(hi > lo, hi - lo, 0)
-        return SV(KConst, None, const=("seq", n, lambda i: SV(KInt, lo + i), KInt))
+        return SV(KConst, None, const=("seq", n, lambda i: SV(KInt, lo + i), KInt, ("range", lo, hi)))
     if not eng.spec_mode and not st.branch(step > 0, "range-step>0"):
         raise Unsupported("range with non-positive step")
     n = z3.If(hi > lo, (hi - lo + step - 1) / step, 0)
